@@ -144,6 +144,12 @@ pub fn str_byte_len(s: &str) -> (r: usize)
     ensures r == str_bytes(s).len()
 { s.len() }
 
+// `str::as_bytes` (R3p): the bytes of a `str`; they are valid UTF-8 and fit a slice
+#[verifier::external_body]
+pub fn str_as_bytes(s: &str) -> (r: &[u8])
+    ensures r@ == str_bytes(s), is_utf8(r@), r@.len() <= 0x7fff_ffff_ffff_ffff
+{ s.as_bytes() }
+
 // ASCII is UTF-8
 #[verifier::external_body]
 pub proof fn axiom_ascii_utf8(b: Seq<u8>)
@@ -175,7 +181,12 @@ pub fn str_from_utf8_unchecked(bytes: &[u8]) -> (r: &str)
 // `Cow<'a, str>` (symbol names): opaque, only the bytes are observable (R11)
 #[verifier::external_body]
 pub struct CowStr { inner: std::borrow::Cow<'static, str> }
-impl CowStr { pub uninterp spec fn bytes(&self) -> Seq<u8>; }
+impl CowStr {
+    pub uninterp spec fn bytes(&self) -> Seq<u8>;
+    // `Cow<str>` derefs to `str`: `name.as_bytes()`
+    #[verifier::external_body]
+    pub fn as_bytes(&self) -> (r: &[u8]) ensures r@ == self.bytes(), is_utf8(r@), r@.len() <= 0x7fff_ffff_ffff_ffff { self.inner.as_bytes() }
+}
 impl Clone for CowStr {
     #[verifier::external_body]
     fn clone(&self) -> (r: Self) ensures r.bytes() == self.bytes() { unimplemented!() }
@@ -267,6 +278,17 @@ pub assume_specification [usize::overflowing_sub] (x: usize, y: usize) -> (r: (u
         r.0 as int == (if x >= y { x as int - y as int } else { x as int - y as int + 0x1_0000_0000_0000_0000 });
 
 // std: `checked_shl` only rejects a shift amount >= the bit width; bits shifted out are lost silently
+// <[T]>::swap (std): exchanges two elements, panics when an index is out of bounds (precondition)
+pub assume_specification<T> [<[T]>::swap] (s: &mut [T], a: usize, b: usize)
+    requires a < old(s)@.len(), b < old(s)@.len()
+    ensures final(s)@ == old(s)@.update(a as int, old(s)@[b as int]).update(b as int, old(s)@[a as int]);
+
+// <[T]>::split_last (std): the last element and the slice before it; None for the empty slice
+pub assume_specification<T> [<[T]>::split_last] (s: &[T]) -> (r: Option<(&T, &[T])>)
+    ensures
+        s@.len() == 0 ==> r is None,
+        s@.len() > 0 ==> (r matches Some(p) && *p.0 == s@[s@.len() - 1] && p.1@ == s@.subrange(0, s@.len() - 1));
+
 pub assume_specification [usize::checked_shl] (x: usize, rhs: u32) -> (r: Option<usize>)
     ensures r == (if rhs < 64 { Some(x << rhs) } else { None::<usize> });
 
